@@ -164,6 +164,11 @@ def classify(prop, res, inst):
         rec.update(kind=inst["c17"], detail=det, behaviour=inst.get("c17_behaviour"), reparsed=inst.get("c17_reparsed"), cex=inst.get("c17_cex"),
                    summary=f"printed text of {inst['op']}{inst['args']} on {res['seed']}: {inst['c17']}: {str(det)[:200]}", dedup=f"{res['seed']}|{inst['op']}|c17|{str(det)[:40]}")
         yield rec
+    if prop == "C06":
+        for pr in inst.get("c06_problems", []) or []:
+            rec = dict(base)
+            rec.update(kind="forwarding", detail=pr, summary=f"after {inst['op']}{inst['args']} on {res['seed']}: {pr['problem'][:240]}", dedup=f"{res['seed']}|{inst['op']}|{pr['problem'][:50]}")
+            yield rec
     if prop == "C07":
         for b in inst.get("c07_violation", []) or []:
             rec = dict(base)
@@ -241,6 +246,11 @@ def run_property(prop, tier, only_seeds=None, only_ops=None):
                     stats["compiled_" + ("ok" if inst["c04_compile"] == "ok" else "rejected")] += 1
             if prop == "C07":
                 stats["c07_requeried"] += 1 if inst.get("c07_requery") else 0
+            if prop == "C06":
+                stats["c06_" + str(inst.get("c06"))] += 1
+                stats["c06_cursors_forwarded"] += inst.get("c06_forwarded", 0)
+                stats["c06_cursors_invalidated"] += inst.get("c06_invalid", 0)
+                stats["c06_direct_vs_forwarded"] += inst.get("c06_direct_vs_forwarded", 0)
             if prop == "C17":
                 stats["c17_" + str(inst.get("c17"))] += 1
                 if inst.get("c17_behaviour"):
